@@ -106,12 +106,32 @@ def repeatOrig (s : Bytes) (n : Int) : Res Bytes :=
     .exc (badValue "n" "small enough not to overflow result" (toString n))
   else stringsRepeat s n
 
-/-- `repeat` with fixes/C41-repeat-overflow.patch: the guard divides instead of
-multiplying (`len(s) > 0 && n > math.MaxInt/len(s)`). -/
-def strRepeat (s : Bytes) (n : Int) : Res Bytes :=
+/-- `repeat` with fixes/C41-repeat-overflow.patch only: the guard divides instead of
+multiplying (`len(s) > 0 && n > math.MaxInt/len(s)`), but any result length up to
+`MaxInt` is handed to `strings.Repeat` (round 1's model; kept for
+`C41_repeat_uncapped_counterexample`). -/
+def repeatUncapped (maxAlloc : Int) (s : Bytes) (n : Int) : Res Bytes :=
   if n < 0 then .exc (badValue "n" "non-negative number" (toString n))
   else if s.length > 0 ∧ n > maxInt / s.length then
     .exc (badValue "n" "small enough not to overflow result" (toString n))
-  else stringsRepeat s n
+  else stringsRepeatA maxAlloc s n
+
+/-- `repeat` as it is now (fixes/C41-repeat-overflow.patch + fixes/C41-repeat-size-cap.patch):
+overflow guard by division, then the documented cap `len(s)*n > maxRepeatLen`
+(the product cannot wrap here), then `strings.Repeat` on a platform whose
+allocation limit is `maxAlloc`. -/
+def strRepeatA (maxAlloc : Int) (s : Bytes) (n : Int) : Res Bytes :=
+  if n < 0 then .exc (badValue "n" "non-negative number" (toString n))
+  else if s.length > 0 ∧ n > maxInt / s.length then
+    .exc (badValue "n" "small enough not to overflow result" (toString n))
+  else if wrap64 (s.length * n) > maxRepeatLen then
+    .exc (badValue "n" "small enough for the result not to exceed 2147483647 bytes" (toString n))
+  else stringsRepeatA maxAlloc s n
+
+/-- the allocation limit of linux/amd64 and linux/arm64 (`1 << heapAddrBits`, 48 bits) -/
+def maxAlloc64 : Int := 281474976710656
+
+/-- `str:repeat` on a 64-bit Linux (what the driver runs) -/
+def strRepeat (s : Bytes) (n : Int) : Res Bytes := strRepeatA maxAlloc64 s n
 
 end C41
